@@ -20,8 +20,11 @@ Definition orel := outcome val -> outcome val -> Prop.
 Definition lift (O : orel) (t1 t2 : thunk) : Prop :=
   forall n r2, ev n t2 = r2 -> r2 <> OutOfFuel -> exists m r1, ev m t1 = r1 /\ O r1 r2.
 
-(* interpretation of a quantified variable: its sealing key and the relation between the hidden values *)
-Record tyint := MkInt { ti_key : nat; ti_rel : orel }.
+(* interpretation of a quantified variable: its sealing key, the relation between the hidden values (type
+   variable) and the relation between the sealed tail and the extra fields of the bare record (row
+   variable) *)
+Definition frel := list (string * thunk) -> list (string * thunk) -> Prop.
+Record tyint := MkInt { ti_key : nat; ti_rel : orel; ti_row : frel }.
 
 Fixpoint OR (d : nat -> tyint) (T : sty) (r1 r2 : outcome val) {struct T} : Prop :=
   (exists e, r1 = Err e /\ r2 = Err e)
@@ -48,6 +51,19 @@ Fixpoint OR (d : nat -> tyint) (T : sty) (r1 r2 : outcome val) {struct T} : Prop
                      x1 = x /\ x2 = x /\ lift (OR d T) t1 t2 /\ go fs' f1' f2'
                  | _, _, _ => False
                  end) fs f1 f2
+     | SRow fs i _ =>
+         (* sealed side: the listed fields and a tail sealed with the key of the row variable;
+            bare side: the same record with the extra fields still in it (after the listed ones) *)
+         exists f1 g1 l f2 g2,
+           r1 = Ok (VRec f1 (RSeal (ti_key (d i)) l g1 RNone)) /\ r2 = Ok (VRec (f2 ++ g2)%list RNone)
+           /\ (fix go (fs : list (string * sty)) (f1 f2 : list (string * thunk)) : Prop :=
+                 match fs, f1, f2 with
+                 | [], [], [] => True
+                 | (x, T) :: fs', (x1, t1) :: f1', (x2, t2) :: f2' =>
+                     x1 = x /\ x2 = x /\ lift (OR d T) t1 t2 /\ go fs' f1' f2'
+                 | _, _, _ => False
+                 end) fs f1 f2
+           /\ ti_row (d i) g1 g2
      end.
 
 Definition rec_rel (d : nat -> tyint) :=
@@ -76,6 +92,7 @@ Proof.
   - destruct H as [p1 [x1 [b1 [p2 [x2 [b2 [H _]]]]]]]. subst; congruence.
   - destruct H as [l1 [l2 [H _]]]. subst; congruence.
   - destruct H as [f1 [f2 [H _]]]. subst; congruence.
+  - destruct H as [f1 [g1 [l [f2 [g2 [H _]]]]]]. subst; congruence.
 Qed.
 
 Lemma OR_err : forall d T e, OR d T (Err e) (Err e).
